@@ -673,7 +673,7 @@ func (c *Ctx) classifyMapLoop(f *FuncInfo, rs *ast.RangeStmt) (class string, rea
 			}
 			fn := FullName(Callee(info, call))
 			if (strings.HasPrefix(fn, "sort.") || strings.HasPrefix(fn, "slices.Sort")) && len(call.Args) > 0 {
-				if sameExpr(info, call.Args[0], target) || (rootOf(call.Args[0]) != nil && rootOf(call.Args[0]) == rootOf(target) && call.Pos() > rs.End()) {
+				if sameExpr(info, call.Args[0], target) || canonExprString(f, call.Args[0]) == canonExprString(f, target) || (rootOf(call.Args[0]) != nil && rootOf(call.Args[0]) == rootOf(target) && call.Pos() > rs.End()) {
 					found = true
 				}
 			}
@@ -905,7 +905,7 @@ func (c *Ctx) mapLoops(pkgs []string) []*mapLoop {
 				if _, isMap := tv.Type.Underlying().(*types.Map); !isMap {
 					return true
 				}
-				x := exprKey(rs.X)
+				x := canonExprString(f, rs.X)
 				counts[x]++
 				key := fmt.Sprintf("%s:range(%s)", f.Name, x)
 				if counts[x] > 1 {
